@@ -382,3 +382,39 @@ fn q_rejected_point_leaves_bounds_untouched() {
     let b = r.pointclouds()[0].cartesian_bounds.clone().unwrap();
     assert_eq!((b.x_min, b.x_max), (Some(1.0), Some(1.0)), "bounds contain values of rejected points");
 }
+
+#[test]
+fn r_blob_section_length_includes_header() {
+    for len in [0usize, 1, 3, 10, 1020, 3000] {
+        let (file, blob) = blob_file(len);
+        let log = logical(&file);
+        let lo = phys2log(blob.offset) as usize;
+        assert_eq!(log[lo], 0, "blob section id");
+        let section_length = u64::from_le_bytes(log[lo + 8..lo + 16].try_into().unwrap());
+        let want = ((16 + len as u64) + 3) / 4 * 4;
+        assert_eq!(section_length, want, "blob of {len} bytes: sectionLogicalLength must cover header + data, padded to 4 (like the compressed vector section length covers its header)");
+        // and the library still reads it back
+        let mut r = E57Reader::new(Cursor::new(file)).unwrap();
+        let mut out = Vec::new();
+        assert_eq!(r.blob(&blob, &mut out).unwrap(), len as u64);
+    }
+}
+
+/// I (C18-R2): descendants() accepts elements nested inside foreign content.
+#[test]
+fn s_descendant_lookup_sees_nested_foreign_content() {
+    let mut cur = Cursor::new(Vec::new());
+    {
+        let mut w = E57Writer::new(&mut cur, "g").unwrap();
+        w.register_extension(Extension::new("ext", "http://example.com/ext")).unwrap();
+        let mut pw = w.add_pointcloud("pc-guid", xyz()).unwrap();
+        pw.add_point(vec![RecordValue::Single(1.0), RecordValue::Single(2.0), RecordValue::Single(3.0)]).unwrap();
+        pw.finalize().unwrap();
+        // a foreign structure that happens to contain an (empty) data3D vector, placed before the real one
+        w.finalize_customized_xml(|x| Ok(x.replace("<data3D type=", "<ext:archive type=\"Structure\"><data3D type=\"Vector\" allowHeterogeneousChildren=\"1\"></data3D></ext:archive>\n<data3D type="))).unwrap();
+    }
+    cur.set_position(0);
+    let r = E57Reader::new(cur).unwrap();
+    assert_eq!(r.pointclouds().len(), 1, "a data3D element nested in foreign content hid the real point clouds");
+}
+
